@@ -44,6 +44,7 @@ def has_quant(t, _cache={}):
 
 class PathCtx:
     PRUNE_MS = 250
+    PRUNE_RLIMIT = 1500000
 
     def __init__(self, prefix=(), prune=True):
         self.prefix = list(prefix)
@@ -53,7 +54,10 @@ class PathCtx:
         self.counter = {}
         self.prune = prune
         self.solver = z3.Solver()
-        self.solver.set("timeout", self.PRUNE_MS)
+        # feasibility pruning is bounded by a RESOURCE limit (deterministic, independent of machine load) with a generous
+        # wall-clock backstop; `unknown` counts as feasible
+        self.solver.set("rlimit", self.PRUNE_RLIMIT)
+        self.solver.set("timeout", max(self.PRUNE_MS, 20000))
         for f in V.PI_FACTS:
             self.solver.add(f)
         self.pc.extend(V.PI_FACTS)
